@@ -50,7 +50,7 @@ CHECKS = {
             "panic-site inventory, typestate (must-pass-through) and control-dependence rules on MIR plus syntax-tree decision tables",
             "Decides: every panic-capable call site of the proc-macro crate is discharged by a recognised guard or an exact justified entry (R1); "
             "every parsed attribute value is validated on every non-error path (R2); the 41 reference rejections are still present (R3); an unknown "
-            "ts key always errors (R4); errors become compile_error! (R5); impl headers strip defaults of every parameter kind (R7); the where-clause walker reaches type parameters behind every type constructor incl. macro groups and qualified paths (R8; repaired by 5225b7b). That every accepted expansion compiles is NOT decided beyond these clauses and the witnesses."),
+            "ts key always errors (R4); errors become compile_error! (R5); impl headers strip defaults of every parameter kind (R7); the where-clause walker reaches type parameters behind every type constructor incl. macro groups and qualified paths (R8; repaired by 5225b7b); untyped `[#(#xs),*]` repetitions are emitted only where xs is non-empty (R9; repaired by 31ba1b7, 442a643). That every accepted expansion compiles is NOT decided beyond these clauses and the witnesses."),
     "C17": ("DESIGN.md section 3/C17",
             "error-discipline, dominance and panic-site analysis on MIR of the export path",
             "Decides: every fallible call on the export path is propagated (R1); registry insertions are dominated by successful write and sync "
